@@ -92,7 +92,7 @@ def run_case(case):
         if [eqv.jdump(eqv.canon(x)) for x in s.reply.stored and sorted(s.reply.stored, key=eqv.jdump)] != \
            [eqv.jdump(eqv.canon(x)) for x in r.stored and sorted(r.stored, key=eqv.jdump)]:
           # bulk calc actions may split rows differently: compare per-cell content instead
-          if cellset(s.reply.stored) != cellset(r.stored) and not cycle_in_stored_diff(hr.doc, s.reply.stored, r.stored):
+          if cellset(s.reply.stored) != cellset(r.stored) and not cycle_in_stored_diff(hr.doc, s.reply.stored, r.stored, s.before):
             out.fail('C06:stored-differs:' + sig, 'stored actions differ by more than order for %r' % (s.uas,),
                      {'baseline': s.reply.stored[:6], 'permuted': r.stored[:6]})
             return True
@@ -106,7 +106,7 @@ def run_case(case):
   return out
 
 
-def cycle_in_stored_diff(doc, a, b):
+def cycle_in_stored_diff(doc, a, b, before=None):
   """The stored actions of the two engines differ only in cells of columns that sit on an order-dependent cycle
   (a real cycle through a lookup index, or a same-row cycle through a formula that swallows exceptions)."""
   from ..hist import lookup_cycle_possible, swallowed_cycle_possible
@@ -119,8 +119,15 @@ def cycle_in_stored_diff(doc, a, b):
     if not (isinstance(x, list) and len(x) == 5 and x[0] in ('UpdateRecord', 'AddRecord')):
       return False
     cols.add((x[1], x[3]))
-  fm = all_formulas(doc)
-  return bool(cols) and (swallowed_cycle_possible(fm, sorted(cols)) or lookup_cycle_possible(fm, sorted(cols)))
+  if not cols:
+    return False
+  # the formulas as they are now, and as they were before the bundle (a bundle that breaks such a cycle still
+  # evaluates cells while it exists)
+  from ..hist import formulas_of_snapshot
+  for fm in (all_formulas(doc), formulas_of_snapshot(before) if before else {}):
+    if fm and (swallowed_cycle_possible(fm, sorted(cols)) or lookup_cycle_possible(fm, sorted(cols))):
+      return True
+  return False
 
 
 def cellset(stored):
